@@ -228,7 +228,11 @@ func execSnapshot(run *core.Run, p *plan) {
 				if pd.due == pd.pos {
 					cls = "snapshot-restore-not-faithful"
 				}
-				run.Fail(cls, "", "snapshot taken after command %d (%s), persisted after command %d: the restored metadata differs from the state at the snapshot position:\n%s", pd.pos, p.Log[pd.pos].Desc, i, diff(pd.wantFull, got))
+				site := ""
+				if metacmd.EpochTruncation(live.Data()) {
+					site = "after-truncation-at-the-unix-epoch"
+				}
+				run.Fail(cls, site, "snapshot taken after command %d (%s), persisted after command %d: the restored metadata differs from the state at the snapshot position:\n%s", pd.pos, p.Log[pd.pos].Desc, i, diff(pd.wantFull, got))
 				return false
 			}
 			run.Probe("snapshot-verified")
